@@ -143,7 +143,7 @@ func (vc *FnVC) havocLV(st *state, lv *lval) {
 func (vc *FnVC) defaultCall(fr *frame, st *state, callee *ssa.Function, c *ssa.CallCommon, args []val, resType types.Type, key string) val {
 	ms := vc.eng.modSetOfCall(vc, c)
 	if ms.all {
-		vc.havocAll(st)
+		vc.havocAllFor(st, callee)
 		vc.note("call to %s: no contract and unknown frame; whole heap havocked", key)
 	} else {
 		for _, h := range sortedKeys(ms.heaps) {
@@ -257,7 +257,7 @@ func (vc *FnVC) applyContractN(fr *frame, st *state, sp *FuncSpec, key string, n
 			ms = modSet{all: true}
 		}
 		if ms.all {
-			vc.havocAll(st)
+			vc.havocAllFor(st, callee)
 			vc.note("call to %s: contract has no modifies clause and the frame is unknown; whole heap havocked", key)
 		} else {
 			for _, h := range sortedKeys(ms.heaps) {
@@ -554,6 +554,7 @@ func (vc *FnVC) builtin(fr *frame, st *state, b *ssa.Builtin, c *ssa.CallCommon,
 		vc.assume("true", fmt.Sprintf("(and (= (s.len %s) (+ (s.len %s) (s.len %s))) (>= (s.cap %s) (s.cap %s)))", r, a.t, bb.t, r, a.t))
 		vc.assume("true", fmt.Sprintf("(forall ((%s Int)) (! (=> (and (<= 0 %s) (< %s (s.len %s))) (= (select (s.arr %s) %s) (select (s.arr %s) %s))) :pattern ((select (s.arr %s) %s))))", k, k, k, a.t, r, k, a.t, k, r, k))
 		vc.assume("true", fmt.Sprintf("(forall ((%s Int)) (! (=> (and (<= 0 %s) (< %s (s.len %s))) (= (select (s.arr %s) (+ (s.len %s) %s)) (select (s.arr %s) %s))) :pattern ((select (s.arr %s) %s))))", k, k, k, bb.t, r, a.t, k, bb.t, k, bb.t, k))
+		vc.assume("true", fmt.Sprintf("(forall ((%s Int)) (! (=> (and (<= (s.len %s) %s) (< %s (s.len %s))) (= (select (s.arr %s) %s) (select (s.arr %s) (- %s (s.len %s))))) :pattern ((select (s.arr %s) %s))))", k, a.t, k, k, r, r, k, bb.t, k, a.t, r, k))
 		// single-element appends (the common case) get a direct fact
 		vc.assume("true", fmt.Sprintf("(=> (= (s.len %s) 1) (= (select (s.arr %s) (s.len %s)) (select (s.arr %s) 0)))", bb.t, r, a.t, bb.t))
 		_ = es
